@@ -3,7 +3,7 @@ Model of grcov's producer/consumer pipeline (src/main.rs 392-480, src/lib.rs `co
 src/producer.rs send sites) as a transition system.
 
 Threads: one producer (sends every work item, then exits), `n` consumers (recv → parse →
-add_results, exit on a stop marker), the main thread (join producer → send `n` stop markers →
+lock the result map → write the batch entry by entry → unlock, exit on a stop marker), the main thread (join producer → send `n` stop markers →
 join consumers → exit code). The bounded crossbeam channel is a FIFO list of capacity `2n` whose
 contract is a parameter of the model: `send` blocks iff full, fails iff no receiver handle is
 left; `recv` blocks iff empty. Faults are part of the environment: `fate x` says whether
@@ -22,8 +22,12 @@ inductive Fate where
   | ok | reject | die
 deriving DecidableEq, Repr
 
+/-- a consumer thread: blocked in / about to call `recv` (`idle`, also: not yet in its loop);
+parsing item `x` (`holding`); holding the parsed batch of `x` and about to take the result-map
+mutex (`batch`); inside `add_results` with the mutex, `j` entries of the batch written
+(`merging`); returned after a stop marker (`exited`); panicked (`dead`) -/
 inductive W where
-  | idle | holding (x : Item) | exited | dead
+  | idle | holding (x : Item) | batch (x : Item) | merging (x : Item) (j : Nat) | exited | dead
 deriving DecidableEq, Repr
 
 inductive MainPc where
@@ -42,22 +46,39 @@ structure State where
   queue : List (Option Item) := []
   workers : List W
   mainPc : MainPc := .joinProd
+  /-- items whose batch went into the result map, in the order of the lock acquisitions -/
   merged : List Item := []
   rejected : List Item := []
   lost : List Item := []
+  /-- the worker inside `add_results` (holder of the `Mutex<CovResultMap>`) -/
+  owner : Option Nat := none
+  /-- a worker panicked while it held the mutex: every later `lock().unwrap()` panics -/
+  poisoned : Bool := false
+  /-- the writes to the result map in the order they happened: (item, index in its batch) -/
+  log : List (Item × Nat) := []
 deriving DecidableEq, Repr
 
 def init (n : Nat) (rxMain : Bool) (items : List Item) : State :=
   { n := n, rxMain := rxMain, todo := items, workers := List.replicate n .idle }
 
+/-- `prodDies` and `workerDies` are faults the environment may inject at any time: a panic of the
+producer thread that is not a failed send (the "No input files found" assert, an unreadable
+path-mapping file, …) and a panic of a consumer thread wherever it is (before its loop –
+`fs::create_dir(..).expect(..)` runs in the consumer thread –, in a parser, inside
+`add_results`). `parsed w` with `fate x = die` is the special case "the parser of `x` panics". -/
 inductive Step where
-  | prodSend | prodExit
-  | recv (w : Nat) | finish (w : Nat)
+  | prodSend | prodExit | prodDies
+  | recv (w : Nat) | parsed (w : Nat) | lock (w : Nat) | mergeEntry (w : Nat) | unlock (w : Nat)
+  | workerDies (w : Nat)
   | main
 deriving DecidableEq, Repr
 
+def Step.isFault : Step → Bool
+  | .prodDies | .workerDies _ => true
+  | _ => false
+
 def W.alive : W → Bool
-  | .idle | .holding _ => true
+  | .idle | .holding _ | .batch _ | .merging _ _ => true
   | _ => false
 
 def cap (s : State) : Nat := 2 * s.n
@@ -70,14 +91,23 @@ def terminal (s : State) : Bool :=
   | .done _ => true
   | _ => false
 
-def enabled (s : State) : Step → Bool
+/-- `size x` = number of entries of the batch the parser of `x` returns -/
+def enabled (size : Item → Nat) (s : State) : Step → Bool
   | .prodSend =>
     !terminal s && !s.prodDone && !s.prodDead && !s.todo.isEmpty &&
       (decide (s.queue.length < cap s) || !receiversAlive s)
   | .prodExit => !terminal s && !s.prodDone && !s.prodDead && s.todo.isEmpty
+  | .prodDies => !terminal s && !s.prodDone && !s.prodDead
   | .recv w => !terminal s && s.workers.getD w .exited == .idle && !s.queue.isEmpty
-  | .finish w =>
+  | .parsed w =>
     !terminal s && (match s.workers.getD w .exited with | .holding _ => true | _ => false)
+  | .lock w =>
+    !terminal s && s.owner.isNone && (match s.workers.getD w .exited with | .batch _ => true | _ => false)
+  | .mergeEntry w =>
+    !terminal s && (match s.workers.getD w .exited with | .merging x j => decide (j < size x) | _ => false)
+  | .unlock w =>
+    !terminal s && (match s.workers.getD w .exited with | .merging x j => decide (size x ≤ j) | _ => false)
+  | .workerDies w => !terminal s && (s.workers.getD w .exited).alive
   | .main =>
     match s.mainPc with
     | .joinProd => s.prodDone || s.prodDead
@@ -93,18 +123,40 @@ def step (fate : Item → Fate) (s : State) : Step → State
       if receiversAlive s then { s with todo := rest, queue := s.queue ++ [some x] }
       else { s with prodDead := true }      -- `send(..).unwrap()` panics in the producer thread
   | .prodExit => { s with prodDone := true }
+  | .prodDies => { s with prodDead := true }
   | .recv w =>
     match s.queue with
     | [] => s
     | some x :: q => { s with queue := q, workers := s.workers.set w (.holding x) }
     | none :: q => { s with queue := q, workers := s.workers.set w .exited }
-  | .finish w =>
+  | .parsed w =>
     match s.workers.getD w .exited with
     | .holding x =>
       match fate x with
-      | .ok => { s with workers := s.workers.set w .idle, merged := s.merged ++ [x] }
+      | .ok => { s with workers := s.workers.set w (.batch x) }
       | .reject => { s with workers := s.workers.set w .idle, rejected := s.rejected ++ [x] }
       | .die => { s with workers := s.workers.set w .dead, lost := s.lost ++ [x] }
+    | _ => s
+  | .lock w =>
+    match s.workers.getD w .exited with
+    | .batch x =>
+      if s.poisoned then { s with workers := s.workers.set w .dead, lost := s.lost ++ [x] }
+      else { s with workers := s.workers.set w (.merging x 0), owner := some w, merged := s.merged ++ [x] }
+    | _ => s
+  | .mergeEntry w =>
+    match s.workers.getD w .exited with
+    | .merging x j => { s with workers := s.workers.set w (.merging x (j + 1)), log := s.log ++ [(x, j)] }
+    | _ => s
+  | .unlock w =>
+    match s.workers.getD w .exited with
+    | .merging _ _ => { s with workers := s.workers.set w .idle, owner := none }
+    | _ => s
+  | .workerDies w =>
+    match s.workers.getD w .exited with
+    | .idle => { s with workers := s.workers.set w .dead }
+    | .holding x => { s with workers := s.workers.set w .dead, lost := s.lost ++ [x] }
+    | .batch x => { s with workers := s.workers.set w .dead, lost := s.lost ++ [x] }
+    | .merging _ _ => { s with workers := s.workers.set w .dead, owner := none, poisoned := true }
     | _ => s
   | .main =>
     match s.mainPc with
@@ -121,17 +173,18 @@ def step (fate : Item → Fate) (s : State) : Step → State
     | .done _ => s
 
 /-- a run: every step enabled in turn -/
-inductive Run (fate : Item → Fate) : State → List Step → State → Prop where
-  | nil (s) : Run fate s [] s
-  | cons {s st tr s'} : enabled s st = true → Run fate (step fate s st) tr s' → Run fate s (st :: tr) s'
+inductive Run (fate : Item → Fate) (size : Item → Nat) : State → List Step → State → Prop where
+  | nil (s) : Run fate size s [] s
+  | cons {s st tr s'} : enabled size s st = true → Run fate size (step fate s st) tr s' →
+      Run fate size s (st :: tr) s'
 
 /-- executable replay of a schedule; `none` when some step is not enabled -/
-def replay (fate : Item → Fate) (s : State) : List Step → Option State
+def replay (fate : Item → Fate) (size : Item → Nat) (s : State) : List Step → Option State
   | [] => some s
-  | st :: tr => if enabled s st then replay fate (step fate s st) tr else none
+  | st :: tr => if enabled size s st then replay fate size (step fate s st) tr else none
 
-theorem replay_run {fate : Item → Fate} {s : State} {tr : List Step} {s' : State}
-    (h : replay fate s tr = some s') : Run fate s tr s' := by
+theorem replay_run {fate : Item → Fate} {size : Item → Nat} {s : State} {tr : List Step} {s' : State}
+    (h : replay fate size s tr = some s') : Run fate size s tr s' := by
   induction tr generalizing s with
   | nil => simp [replay] at h; subst h; exact .nil s
   | cons st tr ih =>
@@ -140,8 +193,9 @@ theorem replay_run {fate : Item → Fate} {s : State} {tr : List Step} {s' : Sta
     · rename_i he; exact .cons he (ih h)
     · simp at h
 
+/-- items a worker has taken from the queue and not yet handed to the result map -/
 def held (ws : List W) : List Item :=
-  ws.filterMap fun w => match w with | .holding x => some x | _ => none
+  ws.filterMap fun w => match w with | .holding x => some x | .batch x => some x | _ => none
 
 def queueItems (s : State) : List Item := s.queue.filterMap id
 
@@ -149,10 +203,13 @@ def queueItems (s : State) : List Item := s.queue.filterMap id
 def everywhere (s : State) : List Item :=
   s.todo ++ queueItems s ++ held s.workers ++ s.merged ++ s.rejected ++ s.lost
 
-/-- all steps a scheduler may choose from (for the progress statements and the trace replayer) -/
+/-- all NON-FAULT steps a scheduler may choose from (for the progress statements and the trace
+replayer); the fault steps `prodDies` / `workerDies w` are the environment's -/
 def allSteps (s : State) : List Step :=
-  [.prodSend, .prodExit, .main] ++ (List.range s.n).flatMap fun w => [.recv w, .finish w]
+  [.prodSend, .prodExit, .main] ++
+    (List.range s.n).flatMap fun w => [.recv w, .parsed w, .lock w, .mergeEntry w, .unlock w]
 
-def stuck (s : State) : Bool := !terminal s && (allSteps s).all fun st => !enabled s st
+def stuck (size : Item → Nat) (s : State) : Bool :=
+  !terminal s && (allSteps s).all fun st => !enabled size s st
 
 end Grcov.Pipeline
